@@ -2,6 +2,9 @@
     Case kinds:
       (1 x1 x2 alt (lim_untied lim_tied) outcome legacy oracle)    stats.MannWhitneyUTest + benchstat.UTest
       (2 n1 n2 T queries)                                          stats.UDist{N1,N2,T}.CDF/PMF
+      (3 n1 n2 v alt outcome)                                      stats.MannWhitneyUTest on n1 and n2 copies of
+                                                                   the value v (large all-equal samples: only the
+                                                                   sizes are shipped)
     outcome : (0 n1 n2 Ubits Pbits altecho) | (1) ErrSampleSize | (2) ErrSamplesEqual | (3) panic | (4) other error
     legacy  : () not run | (outcome') with outcome' = (0 Pbits) | (1) | (2) | (3) | (4)
     oracle  : list of (argbits erfcbits): math.Erfc called directly by the harness
@@ -67,7 +70,8 @@ Record ucase := mkU {
   u_x1 : list Z; u_x2 : list Z; u_alt : alt; u_lims : Z * Z;
   u_out : outcome; u_legacy : legacy; u_oracle : list (Z * Z) }.
 Record dcase := mkD { d_n1 : Z; d_n2 : Z; d_T : list Z; d_q : list (Z * fout * fout) }.
-Inductive case := CU (c : ucase) | CD (c : dcase).
+Record ecase := mkE { e_n1 : Z; e_n2 : Z; e_v : Z; e_alt : alt; e_out : outcome }.
+Inductive case := CU (c : ucase) | CD (c : dcase) | CE (c : ecase).
 
 Definition decode (s : sx) : option case :=
   match s with
@@ -82,6 +86,9 @@ Definition decode (s : sx) : option case :=
       do t <- as_list as_z t;
       do qs <- as_list (as_triple as_z dec_fout dec_fout) qs;
       Some (CD (mkD n1 n2 t qs))
+  | SL [SZ 3; SZ n1; SZ n2; SZ v; SZ a; out] =>
+      do a <- dec_alt a; do out <- dec_outcome out;
+      Some (CE (mkE n1 n2 v a out))
   | _ => None
   end.
 
@@ -290,9 +297,37 @@ Definition prop_ok_d (c : dcase) : bool :=
               (d_q c)
   end.
 
+(** ** kind 3: constant samples given by their sizes.
+    Specification: an empty sample is ErrSampleSize, otherwise all pooled values are
+    equal and the answer must be ErrSamplesEqual (whatever the size: this is the class
+    that caught the sigma == 0 rounding defect at 165142 + 165142 values).
+    Model: [mwu_const] = [mwu] on these samples (Proofs/UTest.v, mwu_const_correct);
+    for small sizes [mwu] itself is run as well. *)
+Definition res_matches (r : uresult) (o : outcome) : bool :=
+  match r, o with
+  | RErrSampleSize, OErrSize => true
+  | RErrSamplesEqual, OErrEqual => true
+  | _, _ => false
+  end.
+
+Definition prop_ok_e (c : ecase) : bool :=
+  match e_out c with
+  | OErrSize => (e_n1 c <=? 0) || (e_n2 c <=? 0)
+  | OErrEqual => (0 <? e_n1 c) && (0 <? e_n2 c)
+  | _ => false
+  end.
+
+Definition corr_ok_e (c : ecase) : bool :=
+  res_matches (mwu_const (e_n1 c) (e_n2 c)) (e_out c)
+  && (if (e_n1 c + e_n2 c <=? 200) && (e_n1 c <=? 200) && (e_n2 c <=? 200) then
+        res_matches (mwu (fun _ => None) (repeat (e_v c) (Z.to_nat (e_n1 c))) (repeat (e_v c) (Z.to_nat (e_n2 c))) (e_alt c))
+                    (e_out c)
+      else true).
+
 Definition run_case (s : sx) : N :=
   match decode s with
   | Some (CU c) => code_of (corr_ok_u c) (prop_ok_u c)
   | Some (CD c) => code_of (corr_ok_d c) (prop_ok_d c)
+  | Some (CE c) => code_of (corr_ok_e c) (prop_ok_e c)
   | None => code_undecodable
   end.
